@@ -18,16 +18,18 @@ import (
 )
 
 // SANDBOX DISCIPLINE (OS backend)
-//   * the run directory is /dev/shm/verif-c06-<12 hex digits> (fixed width, so that path lengths - and with them the
+//   - the run directory is /dev/shm/verif-c06-<12 hex digits> (fixed width, so that path lengths - and with them the
 //     number of operations a runaway recursion performs before ENAMETOOLONG - do not vary from run to run);
-//   * every worker process owns <run>/w<shard>/r, makes it its working directory (so that whatever the repository
+//   - every worker process owns <run>/w<shard>/r, makes it its working directory (so that whatever the repository
 //     derives from an EMPTY path, e.g. filepath.Join("", name) or filepath.Dir(""), resolves inside the sandbox) and
 //     never removes it; between executions its CHILDREN are removed;
-//   * every path handed to the API is sandboxRoot + "/" + <relative path of the alphabet> (backend.abs) or "";
-//   * a guard hook under the VFS refuses (without performing it) every backend operation on an absolute path that is
+//   - every path handed to the API is sandboxRoot + "/" + <relative path of the alphabet> (backend.abs) or "";
+//   - a guard hook under the VFS refuses (without performing it) every backend operation on an absolute path that is
 //     not inside the sandbox root, every relative path that climbs out of the working directory, every mutation of the
 //     root itself and every link / ownership operation; refusals are counted ("escapes").
 const sandboxPrefix = "/dev/shm/verif-c06-"
+
+const deepLimit = 16
 
 const (
 	fullBudget  = 100000 // backend operations per call (the property's "a call terminates")
@@ -48,10 +50,15 @@ type control struct {
 	cancelAt  int64 // cancel the context just before the cancelAt-th backend operation (0 = never)
 	cancel    context.CancelFunc
 	escapes   int
+	// runaway detection of the probe stage: a backend operation on a path more than deepLimit components below the
+	// sandbox root (the trees are at most 5 levels deep, the alphabet's paths at most 3) ends the probe like an
+	// exhausted budget does.
+	deepAbort bool
+	deepHit   bool
 	// crash isolation (in-memory backend): MemMapFs.Rename can end the PROCESS ("fatal error: sync: RUnlock of unlocked
-	// RWMutex", not recoverable). Before every Rename the hook records the operation class in the worker's in-flight
-	// file; a class that already killed a worker is not performed again: the goroutine is ended instead and the run is
-	// reported as crashed (see pool_test.go).
+	// RWMutex", not recoverable). A Rename of a risky class (crashClasses) is not performed in the worker: the goroutine
+	// is ended and the whole call is re-executed in a sacrificial helper process (pool_test.go). Before every other
+	// Rename the hook records the operation class in the worker's in-flight file (safety net).
 	crashClasses map[string]bool
 	crashed      string
 	noteRename   func(opClass string)
@@ -71,6 +78,7 @@ func renameClass(oldp, newp string) string {
 
 func (c *control) reset(budget int64) {
 	c.n, c.budget, c.exhausted, c.killed, c.cancelAt, c.cancel, c.escapes, c.crashed = 0, budget, false, false, 0, nil, 0, ""
+	c.deepHit, c.deepAbort = false, budget < fullBudget
 }
 
 func (c *control) allowed(op *vfsx.Op, p string, second bool) bool {
@@ -111,6 +119,10 @@ func (c *control) Before(op *vfsx.Op) *vfsx.Inject {
 			c.escapes++
 			return &vfsx.Inject{Err: errEscape, Short: -1}
 		}
+	}
+	if c.deepAbort && !c.deepHit && len(op.Path) > len(c.root)+2*deepLimit && strings.HasPrefix(op.Path, c.root+"/") && strings.Count(op.Path[len(c.root):], "/") > deepLimit {
+		c.deepHit = true
+		c.budget = c.n - 1 // from here on the call is treated as out of budget
 	}
 	if c.n > c.budget {
 		c.exhausted = true
@@ -288,7 +300,7 @@ func (b *backend) run(c call, budget int64, cancelAt int) result {
 		// (exit 2), never a verdict
 		panic("c06: call " + c.String() + " neither returned nor touched the backend for 10 minutes")
 	}
-	r := result{Ops: b.ctl.n, Exhausted: b.ctl.exhausted, Killed: b.ctl.killed || (!finished && b.ctl.crashed == ""), Escapes: b.ctl.escapes, Crashed: b.ctl.crashed}
+	r := result{Ops: b.ctl.n, Exhausted: b.ctl.exhausted, Killed: b.ctl.killed || (!finished && b.ctl.crashed == ""), Escapes: b.ctl.escapes, Crashed: b.ctl.crashed, DeepHit: b.ctl.deepHit}
 	r.Handles = len(b.shared.OpenHandles())
 	if finished {
 		r.OK = err == nil
